@@ -19,7 +19,7 @@
       Omega : T^-1   dt, eta, filter tau : T   surface pressure : M L^-1 T^-2
       log_surface_pressure: log of a pressure, i.e. an additive shift of the
       constant mode by -log(factor s pressure). *)
-From Dino Require Import Base.Ops Base.Sums Model.Sigma Model.Implicit Model.PrimEq Thm.Dual.
+From Dino Require Import Base.Ops Base.Sums Model.Sigma Model.Implicit Model.PrimEq Model.Integrators Model.Forcings Thm.Dual.
 Local Open Scope F_scope.
 
 (** exponent vectors *)
@@ -138,4 +138,31 @@ Section Scaling.
            (kg * n_gx x) (kg * n_gy x) (n_sec2 x) (kr * n_f x).
   Definition scale_cfg (kT kR : F) (c : @PEcfg F) : PEcfg :=
     mkPE (cK c) (kR * cR c) (ckappa c) (cls c) (cb c) (scol kT (cTref c)).
+  (** constants of the moist classes: R_vapor, Cp_vapor (L^2 T^-2 Theta^-1) *)
+  Definition scale_moist (kR : F) (m : @Moist F) : Moist := mkMoist (kR * mRv m) (kR * mCpv m).
+
+  (** Held-Suarez parameters (Model/Forcings.v): pressure [kp], rates [kr], temperatures [kT] *)
+  Definition scale_hs (kp kr kT : F) (P : HSParams F) : HSParams F :=
+    mkHSParams (kp * hp_p0 P) (hp_sigma_b P) (kr * hp_kf P) (kr * hp_ka P) (kr * hp_ks P)
+               (kT * hp_minT P) (kT * hp_maxT P) (kT * hp_dTy P) (kT * hp_dThz P).
+
+  (** *** the implicit column model (Model/Implicit.v) as a state space for the
+      integrators of Model/Integrators.v: one spectral coefficient (m,l), state
+      = (divergence[K], temperature[K], lnps).  Entries beyond the K layers
+      carry no information; [clipK] is the projection onto the K + K + 1 active
+      entries. *)
+  Definition clipv (K : nat) (v : nat -> F) : nat -> F := fun k => if Nat.ltb k K then v k else 0.
+  Definition clipK (K : nat) (x : @Col F) : Col := mkCol (clipv K (c_div x)) (clipv K (c_temp x)) (c_lnps x).
+  Definition ColOps : VOps F (@Col F) :=
+    mkVOps F (@Col F) (mkCol (fun _ => 0) (fun _ => 0) 0)
+      (fun x y => mkCol (fun k => c_div x k + c_div y k) (fun k => c_temp x k + c_temp y k) (c_lnps x + c_lnps y))
+      (fun a x => mkCol (fun k => a * c_div x k) (fun k => a * c_temp x k) (a * c_lnps x)).
+  (** implicit terms and resolvent of one coefficient with Laplacian eigenvalue [lam] *)
+  Definition col_G (c : @PEcfg F) (lam : F) (x : Col) : Col := clipK (cK c) (implicit_terms false c lam x).
+  Definition col_Ginv (inv : nat -> Mat -> Mat) (c : @PEcfg F) (lam : F) (x : Col) (eta : F) : Col :=
+    clipK (cK c) (inverse_stacked inv c eta lam x).
+  (** change of scale of a column: divergence [kr], temperature [kT], lnps shifted by [shift] *)
+  Definition col_L (K : nat) (kr kT : F) (x : @Col F) : Col :=
+    mkCol (clipv K (scol kr (c_div x))) (clipv K (scol kT (c_temp x))) (c_lnps x).
+  Definition col_shift (shift : F) : @Col F := mkCol (fun _ => 0) (fun _ => 0) shift.
 End Scaling.
